@@ -18,6 +18,32 @@ CLAIMED = {
    note="Trusted: Coq kernel, extraction+driver, harness, codec libraries as enc oracle (dec(enc x)=x checked by CPython for deflate/bzip2 and by the crate's reader for zstd). PARTIAL: whole-archive round-trip theorem pending.",
    technique="Coq proof (writer/reader ZIP64 field agreement) + byte-exact writer-model correspondence and re-read oracle",
    design="8 (C01)"),
+ "C02": dict(
+   text="Machine-checked Coq theorems over the writer model: a name, archive comment, local extra data (incl. the 20-byte "
+        "ZIP64 reservation) or central extra data (incl. the ZIP64 block) that does not fit its 16-bit length field is "
+        "rejected with an error and the state unchanged (fixes D1/D11), and when the guards pass the length fields of "
+        "the central record hold the true lengths (no truncation).  Whole-archive validity is carried by the "
+        "correspondence: writer programs mixing plain, extra-data, aligned, ZipCrypto, raw-copied, appended, directory and "
+        "symlink entries and lengths at 65535/65536/65537/70000 are run on the crate and on the byte-exact writer model; "
+        "every archive a successful finish returns is judged by an independent strict validator written from APPNOTE "
+        "(end records last and consistent, directory extent and count, local = central, extras well-formed TLV, regions "
+        "disjoint, UTF-8 flag iff non-ASCII, ZIP64 iff needed and version >= 45, payload decodes to recorded CRC/size), "
+        "by CPython zipfile and by Info-ZIP unzip -t.",
+   note="Trusted: Coq kernel, extraction+driver, harness, strictzip.py/zipfile/unzip as judges. PARTIAL: 'finish ops = Ok bytes -> valid bytes' as a Coq theorem over a Gallina strict parser is not yet proved; validity is decided per generated archive by the independent judges.",
+   technique="Coq proof (16-bit length guards and exact length fields) + byte-exact writer-model correspondence judged by three independent validators",
+   design="8 (C02)"),
+ "C17": dict(
+   text="Machine-checked Coq theorems: for every data start and every alignment > 0 (unbounded) the padding computed by "
+        "start_file_aligned satisfies (data_start + 4 + pad) mod align = 0 with pad < align, so the writer's self-check "
+        "cannot fire when the padding record lands where expected; validate_extra_data accepts only data that fits 16 "
+        "bits together with the ZIP64 reservation and whose first record is complete, not ZIP64 and not a reserved id.  "
+        "Correspondence: extra-data programs (local-only, central-only, both, multi-record, invalid, oversize, "
+        "alignments 0/1/2/4/64/4096/65535/non-powers, large_file, after prior entries, on appended archives) compared "
+        "byte for byte with the writer model; oracle: data_start % align = 0 as seen by the crate's own reader and by the "
+        "strict validator, extras recovered verbatim from local and central records.",
+   note="Trusted: Coq kernel, extraction+driver, harness, strictzip.py.",
+   technique="Coq proof (alignment arithmetic for all offsets and alignments, extra-data validation lemmas) + byte-exact writer-model correspondence",
+   design="8 (C17)"),
  "C03": dict(
    text="Machine-checked Coq theorems over the reader model: lookup by name returns the LAST entry carrying the decoded "
         "name, an absent name and an out-of-range index are not-found, an undecodable method fails that entry only.  "
